@@ -31,7 +31,7 @@ ASSUMPTIONS = ["page-boundary rows are exempt for the top/bottom edge that C07 o
                "first displayed column, as a table row has one value"]
 DECIDING = ["docs_parsed", "cells_checked", "matrix_attr_cells_checked", "cells_on_later_pages_checked",
             "twin_cells_compared"]
-FLOOR = {"quick": 1200, "thorough": 20000}
+FLOOR = {"quick": 2000, "thorough": 20000}
 
 ATTRS = ["text_font", "text_font_size", "text_format", "text_color", "text_background_color",
          "text_justification", "text_indent_first", "text_indent_left", "text_indent_right", "text_space",
@@ -57,7 +57,7 @@ def rgb(name):
 
 
 def plan(tier, seed):
-    per = 80 if tier == "quick" else 1300
+    per = 150 if tier == "quick" else 1600
     return [{"n": per} for _ in range(16)]
 
 
